@@ -61,6 +61,23 @@ class Known:
         return self.entries.get(prop, {}).get(sig)
 
 
+def live_first(prop, names, key=lambda n: n):
+    """Order deviation models so that those still listed in known_findings.json come first.
+
+    Property modules explain a mismatch by the smallest set of modelled deviations, trying candidates in list
+    order. Models of defects that have been REPAIRED stay in the modules (so a regression is classified, and then
+    reported, because its signature is no longer listed) but must not win over a still-known deviation that
+    explains the same mismatch."""
+    sigs = Known().entries.get(prop, {})
+
+    def live(n):
+        k = key(n)
+        return any(k in sig for sig in sigs)
+
+    names = list(names)
+    return [n for n in names if live(n)] + [n for n in names if not live(n)]
+
+
 class _Violation(Exception):
     pass
 
